@@ -82,7 +82,7 @@ def layout(rng, force=False):
 
 def generate(tier, seed):
     rng = C.rng_for(seed, "C09")
-    n = 6000 if tier == "quick" else 150000
+    n = 15000 if tier == "quick" else 400000
     lines, nt = [], set()
     texts = []
     for _ in range(n):
